@@ -82,7 +82,8 @@ def seg_runs(prop, tier, specs):
         tagx = ",".join(f"{k}={v}" for k, v in extra.items())
         runs.append(Run(name=f"seg:{action}:N={n}:{'x'.join(map(str, shape))}" + (":" + tagx if tagx else ""),
                         harness=segstep.harness, cfg=cfg, replay=seg_replay.replay,
-                        need_tags=("accepted",) + (("witness:division",) if n >= 3 and prop != "C11" else ()),
+                        need_tags=("accepted",) + (("witness:division",) if n >= 3 and prop != "C11" else ())
+                        + (("witness:skip_edge_pre",) if shape[0] >= 3 and n >= 2 and prop == "C09" else ()),
                         bound=f"{n} symbolic node slots + 1 spare id, label array {'x'.join(map(str, shape))} with "
                               f"symbolic cells, all strokes / argument tuples"))
     return runs
